@@ -34,7 +34,17 @@ def _block_ids(b):
     return [(bytes.fromhex(t["txid"]), bytes.fromhex(t["wtxid"]), bytes.fromhex(t["raw"])) for t in d["txns"]]
 
 
+def _mine_block_root_ok(spk, height, regtest, raws):
+    """integrations.mine_block (RPC layer scripted, harness/c15.py) assembles and submits a block: does its header commit to
+    the CONSENSUS transaction ids (witness-stripped HASH256) of the coinbase it built and of the mempool transactions?"""
+    import c15
+    cb, mr = c15._mine_block_assemble(spk, height, regtest, raws)
+    ids = [c15.ref_parse_tx(bytes(x))[0]["txid"] for x in [cb] + list(raws)]
+    return bytes(mr) == c15.ref_merkle(ids)
+
+
 IMPL = {
+    "mine_block_root_ok": _mine_block_root_ok,
     "block_ids": _block_ids,
     "tx_deser": lambda b: _bits().tx.tx_deser(b, include_raw=True),
     "tx_ser": lambda t: txgen.api_ser(txgen.norm_tx(t)),
@@ -169,6 +179,15 @@ def gen_cases(rng, tier):
             blk = [st] + [txgen.ref_ser(t2) for _, t2 in vs] + [st]
             out.append(case("one-field-apart-in-block-%s" % ("segwit" if sw else "legacy"), "block_ids",
                             rng.randbytes(80) + txgen.ref_cs(len(blk)) + b"".join(blk)))
+    # integrations.mine_block: the ids that go into the header's merkle root (legacy / segwit / mixed mempools: with a segwit
+    # transaction the coinbase carries a witness, and its txid is NOT the hash of its full serialisation)
+    import c15
+    for n in ((1, 2, 3, 5) if T else (1, 2, 4)):
+        for mode in ("legacy", "segwit", "mixed"):
+            txs = [c15.gen_tx(rng, mode == "segwit" or (mode == "mixed" and i == n - 1)) for i in range(n)]
+            out.append(case("mine-block-ids-%s" % mode, "mine_block_root_ok", c15.SPK, rng.choice([0, 16, 149, 150, 210000]),
+                            rng.random() < 0.6, txs, expect=("ok", True)))
+    out.append(case("mine-block-ids-empty-mempool", "mine_block_root_ok", c15.SPK, 5, True, [], expect=("ok", True)))
     # a block whose transaction count needs a 3-byte CompactSize (253+): offsets must follow the count's real width
     many = [txgen.ref_ser(txgen.gen_tx(rng, n_in=1, n_out=1, segwit=(i % 3 == 0))) for i in range(253 if not T else 300)]
     out.append(case("block-deser-ids-253", "block_ids", rng.randbytes(80) + txgen.ref_cs(len(many)) + b"".join(many), timeout=120))
@@ -288,6 +307,13 @@ def _oracle_block(c):
 
 
 def prop_oracle(c):
+    if c["op"] == "mine_block_root_ok":
+        try:
+            ok = _mine_block_root_ok(*c["args"])
+        except Exception as e:  # noqa
+            return "mine_block failed on well-formed mempool transactions: %s: %s" % (type(e).__name__, e)
+        return None if ok else "the header merkle root of the block mine_block submits is not the merkle root of the consensus " \
+                               "txids of its transactions (coinbase included)"
     if c["op"] == "block_ids":
         return _oracle_block(c)
     if c["op"] == "deser_seq":
